@@ -672,6 +672,27 @@ fn roundtrip_one(ctx: &mut Ctx, rng: &mut Rng, fmt: Fmt, bits: u64, which: u64) 
     }
 }
 
+/// Capacity maximisers + random hostile valid cases until `until`.
+fn nopanic_random(ctx: &mut Ctx, rng: &mut Rng, until: std::time::Instant) {
+    let mut i = 0u64;
+    loop {
+        if i % 32 == 0 && std::time::Instant::now() >= until {
+            break;
+        }
+        i += 1;
+        let fmt = if i % 2 == 0 { F64 } else { F32 };
+        let c = match rng.below(10) {
+            0 | 1 | 2 => capacity_case(rng, fmt),
+            3 | 4 => gen::g3(rng, fmt),
+            5 | 6 => gen::g1(rng, fmt),
+            7 => gen::g_seam(rng, fmt),
+            8 => gen::g5(rng, fmt),
+            _ => gen::g9(rng, fmt),
+        };
+        nopanic_one(ctx, fmt, &c);
+    }
+}
+
 /// C04: hostile valid inputs; the verdict is the panic monitor (and the process exit status, seen by the runner).
 fn mode_nopanic(ctx: &mut Ctx, _args: &Args, rng: &mut Rng, shard: (u64, u64)) {
     let lens: &[usize] = &[0, 1, 2, 18, 19, 20, 21, 38, 39, 57, 113, 114, 115, 116, 768, 769, 770, 771, 1000, 10_000, 100_000, 1_000_000];
@@ -679,6 +700,8 @@ fn mode_nopanic(ctx: &mut Ctx, _args: &Args, rng: &mut Rng, shard: (u64, u64)) {
         i32::MIN as i64, i32::MIN as i64 + 1, i32::MIN as i64 + 1_000_000, -1_000_000, -4096, -1100, -343, -342, -325, -324, -308, -66, -65, -46, -45, -38, -23, -22, -1, 0, 1, 22, 23, 38, 39, 308, 309, 4095,
         4096, 1_000_000, i32::MAX as i64 - 1_000_000, i32::MAX as i64 - 1, i32::MAX as i64,
     ];
+    let first = ctx.rep.start + (ctx.rep.deadline - ctx.rep.start).mul_f64(0.25);
+    nopanic_random(ctx, rng, first);
     let mut idx = 0u64;
     // deterministic grid: pattern x length x placement x exponent
     'grid: for &n in lens {
@@ -760,23 +783,8 @@ fn mode_nopanic(ctx: &mut Ctx, _args: &Args, rng: &mut Rng, shard: (u64, u64)) {
         }
     }
     // capacity maximisers + random hostile valid cases until the budget ends
-    let mut i = 0u64;
-    loop {
-        if i % 32 == 0 && ctx.rep.out_of_time() {
-            break;
-        }
-        i += 1;
-        let fmt = if i % 2 == 0 { F64 } else { F32 };
-        let c = match rng.below(10) {
-            0 | 1 | 2 => capacity_case(rng, fmt),
-            3 | 4 => gen::g3(rng, fmt),
-            5 | 6 => gen::g1(rng, fmt),
-            7 => gen::g_seam(rng, fmt),
-            8 => gen::g5(rng, fmt),
-            _ => gen::g9(rng, fmt),
-        };
-        nopanic_one(ctx, fmt, &c);
-    }
+    let end = ctx.rep.deadline;
+    nopanic_random(ctx, rng, end);
     for k in ["path.slow_pos", "path.slow_neg", "path.sticky_digit", "path.large_pow5_step", "tag.CAPACITY", "digits.ge10k"] {
         if k == "path.large_pow5_step" && cfg!(feature = "compact") {
             continue;
